@@ -168,18 +168,41 @@ func NewBinaryModel() *BinaryModel {
 func (m *BinaryModel) ResolveDependencies() {
 	m.Config = NewConfiguration(m.Options)
 	for _, packet := range m.Packets {
-		for _, field := range packet.Fields {
-			if of, ok := field.Attr.(*ObjectFieldAttribute); ok {
-				if of.RefPacket == nil {
-					if refPacket, exists := m.PacketsMap[of.PacketName]; exists {
-						of.RefPacket = refPacket
-					} else {
-						m.AddSyntaxError(&SyntaxError{
-							Line:   field.Line,
-							Column: field.Column,
-							Msg:    "Unknown packet type " + of.PacketName + " for field " + field.Name,
-						})
-					}
+		m.resolveFields(packet.Fields)
+	}
+}
+
+// resolveFields links object fields to their packets and checks that every packet named by a
+// field or a match pair is declared, descending into inline objects.
+func (m *BinaryModel) resolveFields(fields []*Field) {
+	for _, field := range fields {
+		switch c := field.Attr.(type) {
+		case *ObjectFieldAttribute:
+			if c.IsIner {
+				if c.RefPacket != nil {
+					m.resolveFields(c.RefPacket.Fields)
+				}
+				continue
+			}
+			if c.RefPacket == nil {
+				if refPacket, exists := m.PacketsMap[c.PacketName]; exists {
+					c.RefPacket = refPacket
+				} else {
+					m.AddSyntaxError(&SyntaxError{
+						Line:   field.Line,
+						Column: field.Column,
+						Msg:    "Unknown packet type " + c.PacketName + " for field " + field.Name,
+					})
+				}
+			}
+		case *MatchFieldAttribute:
+			for _, pair := range c.MatchPairs {
+				if _, exists := m.PacketsMap[pair.Value]; !exists {
+					m.AddSyntaxError(&SyntaxError{
+						Line:   pair.Line,
+						Column: pair.Column,
+						Msg:    "Unknown packet type " + pair.Value + " for match key " + pair.Key + " of " + field.Name,
+					})
 				}
 			}
 		}
